@@ -319,9 +319,17 @@ func (g *progGen) draw(vars *[]int) *Stmt {
 }
 
 // The last two are different character classes whose printed forms share a long prefix (cache keys must not confuse them).
+var lookalikePrefix = func() string {
+	s := ""
+	for i := 0; i < 24; i++ {
+		s += fmt.Sprintf(`\x{%x}-\x{%x}`, 0x100+i*0x20, 0x10f+i*0x20)
+	}
+	return s
+}()
+
 var regexCatalogue = []string{`[a-c]{0,4}`, `x+y?`, `\d{1,3}`, `(ab|cd)*`, `[[:alpha:]]{2}`,
-	`[\x{100}-\x{10f}\x{120}-\x{12f}\x{140}-\x{14f}\x{160}-\x{16f}\x{180}-\x{18f}\x{1a0}-\x{1af}\x{1c0}-\x{1cf}a-c]{1,3}`,
-	`[\x{100}-\x{10f}\x{120}-\x{12f}\x{140}-\x{14f}\x{160}-\x{16f}\x{180}-\x{18f}\x{1a0}-\x{1af}\x{1c0}-\x{1cf}x-z]{1,3}`}
+	`[` + lookalikePrefix + `\x{1000}-\x{1010}]{1,3}`,
+	`[` + lookalikePrefix + `\x{2000}-\x{2010}]{1,3}`}
 
 func (g *progGen) intSpec(depth int) *GenSpec {
 	t := g.t
@@ -351,6 +359,9 @@ func (g *progGen) intSpec(depth int) *GenSpec {
 	case 3:
 		return &GenSpec{K: "uint8"}
 	case 4:
+		if t.Chance("gen.filter_rare", 35) {
+			return &GenSpec{K: "filter_rare", Sub: g.intSpec(depth + 1)}
+		}
 		return &GenSpec{K: "filter_even", Sub: g.intSpec(depth + 1)}
 	case 5:
 		return &GenSpec{K: "map_x2", Sub: g.intSpec(depth + 1)}
